@@ -7,17 +7,17 @@ import (
 )
 
 func extractAll() {
-	replyLoopFacts()
-	errorsFacts()
-	sortFacts()
-	correctableFacts()
-	codecFacts()
-	channelFacts()
-	configFacts()
-	serverFacts()
-	onewayFacts()
-	mgrFacts()
-	genFacts()
+	safely("replyLoop", replyLoopFacts)
+	safely("errors", errorsFacts)
+	safely("sort", sortFacts)
+	safely("correctable", correctableFacts)
+	safely("codec", codecFacts)
+	safely("channel", channelFacts)
+	safely("config", configFacts)
+	safely("server", serverFacts)
+	safely("oneway", onewayFacts)
+	safely("mgr", mgrFacts)
+	safely("gen", genFacts)
 }
 
 // ------------------------------------------------------------------ reply loops (C01, C02, C06, C07)
